@@ -173,7 +173,7 @@ def run(tier):
             cfg = {"optimize": opt, "autoescape": [".html"]}
             if v.get("delims") == "one-char-2-byte":
                 cfg["delims"] = ONECHAR
-            jobs.append({"cfg": cfg, "ctx": {"m": {"a": 1}, "xs": [1], "nm": "n"}, "steps": [{"op": "add", "tpls": tpls}, {"op": "render", "name": entry}]})
+            jobs.append({"cfg": cfg, "ctx": {"m": {"a": 1}, "xs": [1], "nm": "n", "by": {"$bytes": [65, 66]}}, "steps": [{"op": "add", "tpls": tpls}, {"op": "render", "name": entry}]})
             meta.append((v, dict(tpls), hn, hs, fs, fe, sites, opt, (focus, units)))
     res = vp.run_jobs(jobs, tag="c12", timeout=3000)
     work = vp.workdir("c12")
